@@ -183,8 +183,10 @@ fn bases(n: usize, seeds: u64) -> Vec<Base> {
         let mut seed = [0u8; 32];
         seed[0] = s as u8;
         seed[1] = (n.trailing_zeros()) as u8;
+        // horizon: at most ~300 candidates' worth of draws (key generation is a rejection loop; with a broken
+        // reduction it may never accept)
         let r = catch(move || {
-            let mut rng = rand::rngs::StdRng::from_seed(seed);
+            let mut rng = crate::envrng::Bounded::new(rand::rngs::StdRng::from_seed(seed), 300 * 8192 * 40);
             ntru_gen(n, &mut rng)
         });
         if let Ok((f, g, cf, cg)) = r {
@@ -334,7 +336,7 @@ pub fn run(tier: Tier) {
     for (o, c) in &t.outcomes {
         part.outcome(format!("{} x{}", o, c));
     }
-    if t.changed == 0 {
+    if t.changed == 0 && t.nviol == 0 {
         crate::ctx::machinery_error("C17: no input was changed by the reduction (vacuity guard)");
     }
     for (_, f) in t.found {
